@@ -72,6 +72,7 @@ structure Variant where
   lUPromote : Lbl := 0
   uPost : List Lbl := []
   uSleep : List Lbl := []
+  popFirst : Bool := true   -- `_process_job_status` removes the job from the pending map before its cloud calls (all but Glue)
   arrMax : Nat := 0         -- arrayer `max_array_size` (0 = larger than any group): a poll hands over at most this many
                             -- jobs of the (single) group and puts the remainder back, still stale
 
@@ -125,6 +126,9 @@ structure State where
   mon : Option Mon := none          -- the thread `self._thread` (Glue: `self._monitor_thread`) refers to
   oldSubs : List Sub := []          -- Glue: earlier submission threads
   sub : Option Sub := none          -- Glue: `self._submit_thread`
+  armed : Bool := false             -- environment: the next status processing hits one transient cloud error (throttling)
+  faulted : Bool := false           -- ghost: such an error has been injected at some point
+  dropped : List Job := []          -- ghost: jobs removed from the pending map by a processing step that then failed
   deriving Repr
 
 /-- all monitor / submission threads in creation order (thread `M k` / `U k` is element `k`) -/
@@ -237,7 +241,13 @@ def stepMon (V : Variant) (s : State) (isLast : Bool) (m : Mon) : Option (State 
     | j :: r => some (s, { m with cur := j, iter := r, ph := mNops V.mProcPre .procPre .proc })
   | .procPre r => some (s, { m with ph := mNops r.tail .procPre .proc })
   | .proc =>
-    if s.pending.contains m.cur then
+    if s.armed then
+      -- a cloud call inside `_process_job_status` raises (throttling): nothing is reported, the exception leaves the for
+      -- loop and reaches `except Exception` of `_monitor`; the job has already been popped where the pop comes first
+      let s1 := if V.popFirst && s.pending.contains m.cur then
+          { s with pending := s.pending.erase m.cur, dropped := s.dropped ++ [m.cur] } else s
+      some ({ s1 with armed := false }, { m with ph := mNops V.mExc .exc (mPost V.post) })
+    else if s.pending.contains m.cur then
       some ({ s with pending := s.pending.erase m.cur, reported := s.reported ++ [m.cur] },
             { m with idx := m.idx + 1,
                      ph := mNops (if m.idx % 100 == 0 then V.mProcPostFirst else V.mProcPost) .procPost .forHead })
@@ -323,6 +333,7 @@ inductive Ev where
   | M (k : Nat)
   | U (k : Nat)
   | A
+  | F                      -- environment: arm one transient cloud error
   deriving DecidableEq, Repr
 
 def step (V : Variant) (s : State) : Ev → Option State
@@ -330,6 +341,7 @@ def step (V : Variant) (s : State) : Ev → Option State
   | .M k => stepM V s k
   | .U k => stepU V s k
   | .A => stepA V s
+  | .F => if s.armed then none else some { s with armed := true, faulted := true }
 
 def run (V : Variant) : State → List Ev → State
   | s, [] => s
@@ -484,7 +496,7 @@ def gcpBatch : Variant where
   mProcPostFirst := []
   mProcPost := []
   mSleep := [16]
-  mExc := [17, 18]
+  mExc := [35, 17, 18]
   post := [(19, .nop), (20, .nop), (21, .clearFlag), (32, .nop), (33, .arrStop)] ++ stopJoin 22 23 24 25
 
 def glue : Variant where
@@ -518,6 +530,7 @@ def glue : Variant where
   mSleep := [16]
   mExc := [17, 18]
   post := [(20, .nop), (21, .clearFlag)]
+  popFirst := false
   uPre := [40, 41]
   lUOuter := 42
   lUFc := 43
